@@ -362,7 +362,7 @@ def build_evidence(prop, tier, seed, P, specs, results, cls, regen_info, premise
             "rule": "evaluations = assertions/covers decided by CBMC's SAT back end over the regenerated real source (all values of the symbolic inputs within the stated bounds per assertion) plus premise cases; distinct_nontrivial = distinct (harness, obligation tagged VERIF[%s]) pairs decided plus distinct reachability witnesses (kani::cover) satisfied plus distinct premise cases" % prop,
             "samples": samples[:40],
             "exhaustive": False,
-            "technique": "bounded model checking (Kani %s): real functions compiled to a CBMC model, symbolic inputs, one SAT query per assertion" % tool_versions(),
+            "technique": "bounded model checking (%s): real functions compiled to a CBMC model, symbolic inputs, one SAT query per assertion" % tool_versions(),
             "functions_encoded": functions,
             "bounds": bounds,
             "outside_bounds": P.get("outside", []),
